@@ -110,8 +110,9 @@ def loop_kinds(prog, func):
 
 def guard_switch(body, head, blocks):
     """the block that decides whether a `while` loop continues: reached from the head along single
-    in-loop successors, it switches on a comparison computed in the block itself and one of its two
-    targets leaves the loop.  -> (chain of blocks, guard block, continue-iff-true) or None"""
+    in-loop successors, it switches on a comparison computed in the block itself (or on the discriminant
+    of an `Option<integer>` local: `while let Some(v) = state`) and one of its targets leaves the loop.
+    -> (chain of blocks, guard block, continue-iff-true, None | ('discr', local)) or None"""
     chain = []
     b = head
     for _ in range(6):
@@ -127,9 +128,22 @@ def guard_switch(body, head, blocks):
                 if cmp_ and len(tg) == 1 and tg[0][0] == 0:
                     zero_in, other_in = tg[0][1] in blocks, t['otherwise'] in blocks
                     if other_in and not zero_in:
-                        return (tuple(chain), b, True)
+                        return (tuple(chain), b, True, None)
                     if zero_in and not other_in:
-                        return (tuple(chain), b, False)
+                        return (tuple(chain), b, False, None)
+                # `while let Some(v) = state { .. }`: the switch tests the discriminant of an Option local
+                dsc = [s for s in body.blocks[b]['stmts'] if s['k'] == 'assign' and s['place']['local'] == dl and not s['place']['proj']
+                       and s['rv']['k'] == 'discr' and not s['rv']['place']['proj']]
+                if dsc:
+                    ol = dsc[-1]['rv']['place']['local']
+                    oty = body.locals[ol]['ty']
+                    if oty.startswith('std::option::Option<') and oty[len('std::option::Option<'):-1] in ('u8', 'u16', 'u32', 'u64', 'usize'):
+                        succ_in = {v: (x in blocks) for v, x in tg}
+                        oth_in = t['otherwise'] in blocks and body.blocks[t['otherwise']]['term']['k'] != 'unreachable'
+                        some_in = succ_in.get(1, oth_in)
+                        none_in = succ_in.get(0, oth_in)
+                        if some_in and not none_in:
+                            return (tuple(chain), b, True, ('discr', ol))
             return None
         nxt = [x for x in body.succs(b) if x in blocks and not body.blocks[x].get('cleanup')]
         if t['k'] not in ('goto', 'call', 'assert', 'drop') or len(nxt) != 1 or nxt[0] == head:
